@@ -122,8 +122,13 @@ class Report:
 
     def all_violations(self):
         out = []
+        seen = set()
         for rid in self.order:
-            out.extend(self.rules[rid]['violations'])
+            for v in self.rules[rid]['violations']:
+                if v['key'] in seen:
+                    continue
+                seen.add(v['key'])
+                out.append(v)
         return out
 
 
